@@ -47,6 +47,9 @@ CHECKS = {
  "C16": dict(category="exploration", technique="exhaustive enumeration of +-3 bands around sampled bin boundaries of every level (all boundary pairs) plus Hypothesis-generated pairs up to 2^30, judged by a re-typed 'smallest containing bin' oracle and an independent never-hides relation",
    text="All (start,end) with both ends within +-3 of boundaries of every level 2^17..2^29 (pairs of boundaries included) in both coordinate conventions, random pairs to 2^30 incl. out-of-range; bins(one=True) must equal the smallest standard bin containing the interval; bins(one=False) must contain every bin overlapping the range; for generated (query, interval) pairs that overlap, the interval's bin must be in the query's bin set.",
    note="Bin numbering as documented in util/bins.py. The end-to-end form through collection queries is in C09.", ref="DESIGN.md §5 C16"),
+ "C17": dict(category="exploration", technique="Hypothesis-generated collections with sequences carrying planted start/stop/in-frame-stop codons, exported as .tbl and re-read by an independent 5-column reader; partial marks, codon_start and pseudo judged by the FrameModel and NCBI codon tables",
+   text="Header naming the sequence; per gene the gene / mRNA+CDS (eukaryotic) / CDS (prokaryotic) / RNA records in order, each with exactly the merged source blocks as 1-based inclusive 5'->3' intervals; 5'-partial iff the first codon is not a start codon of the chosen table; 3'-partial iff not (in-frame end on a stop codon); codon_start = start frame + 1 on CDS only; pseudo iff an in-frame stop exists; locus tags unique and increasing by the step; identical text for a repeated run with the same seed (including seed 0).",
+   note="One transcript per gene, all coding or all non-coding (writer's documented assumption); ACGT only.", ref="DESIGN.md §5 C17"),
  "C20": dict(category="exploration", technique="Hypothesis-generated genes / feature collections with engineered ties (shifted copies), strand and coding mixes and primary flags, judged by min/max, set union and an explicit argmax model",
    text="Span, is_coding, feature types, merged transcript/CDS/feature position sets, primary selection (single flag, several flags refused, else longest CDS then longest spliced length then list position), primary sequence/CDS/protein accessors against the chosen child's values, and start-ordered stable iteration of annotation collections.",
    note="Merged blocks are required to be sorted, disjoint and to cover exactly the union; merging of adjacent blocks is not demanded.", ref="DESIGN.md §5 C20"),
